@@ -12,6 +12,7 @@ import (
 
 	"encoding/xml"
 
+	"mellium.im/xmpp/jid"
 	"mellium.im/xmpp/stanza"
 	"mellium.im/xmpp/stream"
 
@@ -90,6 +91,114 @@ func errorNsProbe() string {
 }
 
 
+
+// ---- round D probes ---------------------------------------------------------------------------
+
+func leanOpt(s string, ok bool) string {
+	if !ok {
+		return "none"
+	}
+	return "some " + strconv.Quote(s)
+}
+
+// jidAttrUniverse: raw attribute values: the pools of the runner, and one full address padded
+// with every kind of white space before / after / on both sides, and white space alone.
+func jidAttrUniverse() []string {
+	u := append([]string{}, rawAddr...)
+	u = append(u, edgeAddrs...)
+	for _, ws := range []string{" ", "\t", "\n", "\r", "\u00a0", "\u2003", "  "} {
+		u = append(u, ws, ws+"a@example.net/r", "a@example.net/r"+ws, ws+"a@example.net/r"+ws, ws+"example.net", "example.net"+ws, "a@example.net/"+ws)
+	}
+	seen := map[string]bool{}
+	var out []string
+	for _, x := range u {
+		if !seen[x] {
+			seen[x] = true
+			out = append(out, x)
+		}
+	}
+	return out
+}
+
+// jidAttrProbe: the REAL (*jid.JID).UnmarshalXMLAttr (what encoding/xml calls for to / from / by)
+// next to the REAL jid.Parse (what NewIQ|NewMessage|NewPresence call) on every value of the
+// universe: the canonical string of the result, none = error.
+func jidAttrProbe() string {
+	var rows []string
+	for _, raw := range jidAttrUniverse() {
+		var j jid.JID
+		var aerr error
+		if p := common.Recover(func() { aerr = j.UnmarshalXMLAttr(xml.Attr{Name: xml.Name{Local: "to"}, Value: raw}) }); p != "" {
+			aerr = fmt.Errorf("panic")
+		}
+		pj, perr := jid.Parse(raw)
+		rows = append(rows, fmt.Sprintf("(%s, %s, %s)", strconv.Quote(raw), leanOpt(j.String(), aerr == nil), leanOpt(pj.String(), perr == nil)))
+	}
+	return fmt.Sprintf("/-- raw attribute value ↦ (real `JID.UnmarshalXMLAttr`, real `jid.Parse`), canonical strings -/\ndef jidAttrProbe : Option (List (String × Option String × Option String)) := some [\n  %s]\n", strings.Join(rows, ",\n  "))
+}
+
+var (
+	childSpaces = []string{"", nsStreamErr, nsStanzaErr, "urn:example:cluster", "http://etherx.jabber.org/streams", "jabber:client"}
+	childLocals = []string{"text", "see-other-host", "conflict", "error", "x"}
+)
+
+func renderTexts(ts [][2]string) string {
+	var l []string
+	for _, t := range ts {
+		l = append(l, t[0]+"="+t[1])
+	}
+	return strings.Join(l, ",")
+}
+
+// errChildProbe: the REAL decoders of stream.Error and stanza.Error on an error that holds, between
+// its condition and a descriptive text (xml:lang='de', "t"), ONE more child <local xmlns=space
+// xml:lang='en'>x</local>, for every (space, local) of the grid.  Rendered as
+// err|content|lang=text,…  (stream) and by|type|condition|lang=text,… (stanza; languages sorted).
+func errChildProbe() string {
+	var srows, erows []string
+	for _, sp := range childSpaces {
+		for _, lo := range childLocals {
+			child := confusable(sp, lo, "en", "x")
+			// stream error
+			{
+				st := xml.StartElement{Name: xml.Name{Space: "http://etherx.jabber.org/streams", Local: "error"}}
+				cond := xml.StartElement{Name: xml.Name{Space: nsStreamErr, Local: "system-shutdown"}}
+				toks := append([]xml.Token{st, cond, cond.End()}, child...)
+				toks = append(toks, confusable(nsStreamErr, "text", "de", "t")...)
+				toks = append(toks, st.End())
+				res := "err"
+				var v stream.Error
+				var err error
+				if p := common.Recover(func() { err = xml.NewTokenDecoder(&sliceReader{t: toks}).Decode(&v) }); p != "" {
+					res = "panic"
+				} else if err == nil {
+					e := fromStErr(v)
+					res = e.err + "|" + e.content + "|" + renderTexts(e.texts)
+				}
+				srows = append(srows, fmt.Sprintf("(%q, %q, %q)", sp, lo, res))
+			}
+			// stanza error
+			{
+				st := xml.StartElement{Name: xml.Name{Local: "error"}, Attr: []xml.Attr{{Name: xml.Name{Local: "type"}, Value: "cancel"}}}
+				cond := xml.StartElement{Name: xml.Name{Space: nsStanzaErr, Local: "gone"}}
+				toks := append([]xml.Token{st, cond, cond.End()}, child...)
+				toks = append(toks, confusable(nsStanzaErr, "text", "de", "t")...)
+				toks = append(toks, st.End())
+				res := "err"
+				v, err, pan := decodeErrTokens(toks)
+				if pan != "" {
+					res = "panic"
+				} else if err == nil {
+					e := fromErr(v)
+					res = e.by + "|" + e.typ + "|" + e.cond + "|" + renderTexts(e.texts)
+				}
+				erows = append(erows, fmt.Sprintf("(%q, %q, %q)", sp, lo, res))
+			}
+		}
+	}
+	return fmt.Sprintf("/-- (namespace, local name) of one extra child ↦ what the real `stream.Error` decoder returns -/\ndef streamErrChildProbe : Option (List (String × String × String)) := some [\n  %s]\n/-- … and the real `stanza.Error` decoder -/\ndef stanzaErrChildProbe : Option (List (String × String × String)) := some [\n  %s]\n",
+		strings.Join(srows, ",\n  "), strings.Join(erows, ",\n  "))
+}
 
 // typedConsts returns the string values of the constants declared with the
 // given type in a file, in source order.
@@ -281,6 +390,8 @@ func Facts(repo string) (string, error) {
 	// code, break when its behaviour changes)
 	sb.WriteString(textSizeProbe())
 	sb.WriteString(errorNsProbe())
+	sb.WriteString(jidAttrProbe())
+	sb.WriteString(errChildProbe())
 	sb.WriteString("\nend XmppModel.Generated.C13\n")
 	return sb.String(), nil
 }
